@@ -44,6 +44,8 @@ def gen_program(seed, idx, tier):
         g.partial = True
         if rs.below(2):
             g.targets += ["rx", "nx"]
+    if rs.below(10) == 0:
+        return g.program_undefaulted()
     g.on_reset = rs.below(4) == 0
     g.push = rs.below(3) == 0
     prog = g.program()
